@@ -14,6 +14,7 @@ import LyModel.YangStr.Drv
 import LyModel.LyHt.Drv
 import LyModel.Sib.Drv
 import LyModel.Diff.Drv
+import LyModel.Diff.Drv13
 import LyModel.Ctx.Drv
 import LyModel.Merge.Drv
 import LyModel.Valid.Drv
@@ -38,6 +39,7 @@ def dispatch (comp op : String) (args : List String) : String :=
   | "ht" => LyHt.Drv.handle op args
   | "sib" => Sib.Drv.handle op args
   | "diff" => Diff.Drv.handle op args
+  | "diff13" => Diff.Drv13.handle op args
   | "ctx" => Ctx.Drv.handle op args
   | "merge" => Merge.Drv.handle op args
   | "valid" => Valid.Drv.handle op args
